@@ -86,6 +86,14 @@ def run_check(prop, tier, seed, scratch, t0, args):
               % (len(built), len(ws.gen)))
         return 2
 
+    # Native cross-check (concrete, not solver-decided): the tables the solver validates must be the
+    # tables a serialise/deserialise round trip restores, otherwise nothing can be said about restored
+    # automata (C07, C09).  A mismatch makes the run inconclusive; it is never reported as a violation.
+    image_notes = ["%s: deserialize_unchecked(serialize() ++ 2 bytes) does not restore the same tables/remainder "
+                   "(native cross-check; not a solver verdict)" % g["name"] for g in built if not g.get("ser_identical", True)]
+    for line in image_notes:
+        print("NOTE " + line)
+
     jobs = []
     meta = {}
     for g in built:
@@ -117,7 +125,7 @@ def run_check(prop, tier, seed, scratch, t0, args):
                             mem_budget_gb=int(os.environ.get("VERIF_MEM_GB", "52")))
 
     # --- self-test of the pipeline (DESIGN.md section 5) ---
-    inconclusive = []
+    inconclusive = list(image_notes) if prop in ("C07", "C09", "C06") else []
     st_ok = results.get("selftest::twin_ok")
     st_bad = results.get("selftest::twin_fail")
     traces_validated = 0
